@@ -617,46 +617,52 @@ bytes_inst! {
 }
 
 // UNKNOWN-ATTRIBUTES (RFC 8489 §14.9): list of 16-bit types
-#[kani::proof]
-#[kani::unwind(4)]
-#[kani::stub(alloc::fmt::format, nofmt)]
-fn attr_unknown_attributes() {
+fn unknown_attributes_rt<const N: usize>() {
     use crate::attributes::stun::UnknownAttributes;
     assert!(UnknownAttributes::get_type().as_u16() == 0x000a);
     let msg = any_header();
-    let n: usize = kani::any();
-    kani::assume(n <= 2);
     let t0: u16 = kani::any();
     let t1: u16 = kani::any();
     kani::assume(t0 != t1);
     let mut a = UnknownAttributes::default();
-    if n >= 1 {
+    if N >= 1 {
         a.add(t0);
     }
-    if n >= 2 {
+    if N >= 2 {
         a.add(t1);
     }
     if let Some(e) = enc(&a, &msg) {
-        assert!(e.size == 2 * n);
-        if n >= 1 {
+        assert!(e.size == 2 * N);
+        if N >= 1 {
             assert!(e.out[0] == (t0 >> 8) as u8 && e.out[1] == t0 as u8);
         }
-        if n >= 2 {
+        if N >= 2 {
             assert!(e.out[2] == (t1 >> 8) as u8 && e.out[3] == t1 as u8);
         }
         if let Some(b) = dec::<UnknownAttributes>(&e, &msg) {
-            assert!(b.attributes().len() == n);
-            if n >= 1 {
+            assert!(b.attributes().len() == N);
+            if N >= 1 {
                 assert!(b.attributes()[0] == t0);
             }
-            if n >= 2 {
+            if N >= 2 {
                 assert!(b.attributes()[1] == t1);
             }
             std::mem::forget(b);
         }
     }
-    kani::cover!(n == 2);
     std::mem::forget(a);
+}
+#[kani::proof]
+#[kani::unwind(4)]
+#[kani::stub(alloc::fmt::format, nofmt)]
+fn attr_unknown_attributes() {
+    unknown_attributes_rt::<1>();
+}
+#[kani::proof]
+#[kani::unwind(4)]
+#[kani::stub(alloc::fmt::format, nofmt)]
+fn attr_unknown_attributes_n2() {
+    unknown_attributes_rt::<2>();
 }
 
 // USERHASH (RFC 8489 §14.4): 32 opaque bytes.  The only constructor hashes (SHA-256 is outside the
